@@ -165,14 +165,23 @@ func walkToJ(w real.WalkRec, c *tok.Conc) walkJ {
 
 // validateTrace runs TLC on TraceDoc with the records; returns the set of (index, layer) failures.
 func validateTrace(r *evid.Run, cfg string, recs []*traceRec) (map[int]string, bool) {
+	anyRecs := make([]any, len(recs))
+	for i, rec := range recs {
+		anyRecs[i] = rec
+	}
+	return validateTraceIn(r, "TraceDoc", cfg, "trace.ndjson", anyRecs)
+}
+
+// validateTraceIn runs TLC on a trace module; returns the failing (index, layers).
+func validateTraceIn(r *evid.Run, module, cfg, file string, recs []any) (map[int]string, bool) {
 	var sb strings.Builder
 	for _, rec := range recs {
 		b, _ := json.Marshal(rec)
 		sb.Write(b)
 		sb.WriteByte('\n')
 	}
-	res, err := tlcrun.Run(tlcrun.Opts{SpecDir: specDir, Module: "TraceDoc", Cfg: cfg, Workers: 1, Timeout: 15 * time.Minute,
-		Extra: map[string]string{"trace.ndjson": sb.String()}}, nil)
+	res, err := tlcrun.Run(tlcrun.Opts{SpecDir: specDir, Module: module, Cfg: cfg, Workers: 1, Timeout: 15 * time.Minute,
+		Extra: map[string]string{file: sb.String()}}, nil)
 	if err != nil {
 		r.Broken("trace validation: %v\n%s", err, tail(res))
 		return nil, false
